@@ -32,7 +32,7 @@ VerdictBig(r) ==
          ELSE IF ~EndRules(p.seqs) THEN [id |-> r.id, v |-> "end-of-block-rule-broken", why |-> FirstBrokenEndRule(p.seqs), st |-> Stats(p.seqs)]
          ELSE [id |-> r.id, v |-> "ok", why |-> IF p.nib # 0 THEN "stray-nibble" ELSE "", st |-> Stats(p.seqs)]
 
-BigLimit == 8192
+BigLimit == 4096
 Verdict(r) ==
     IF Len(r.x) > BigLimit THEN VerdictBig(r) ELSE
     LET p == Parse(r.c)
